@@ -57,12 +57,39 @@ def random_inputs(seed, count):
 
 
 # ---------------------------------------------------------------------------------------------
+_UNIVERSE = []      # FetchQuery!Universe as written by TLC; used only to print values instead of codes
+
+
+def _py(t):
+  """Python literal of a tagged value [k, n, s, l] (display only)."""
+  k = t["k"]
+  if k == "i":
+    return str(t["n"] // 2)
+  if k == "f":
+    return repr(t["n"] / 2.0)
+  if k == "b":
+    return "True" if t["n"] else "False"
+  if k == "s":
+    return repr(t["s"])
+  if k == "z":
+    return "None"
+  return "[" + ", ".join(_py(x) for x in t["l"]) + "]"
+
+
+def _val(code):
+  return _py(_UNIVERSE[code]) if code < len(_UNIVERSE) else "<code %d>" % code
+
+
 def _describe(case):
   inp = case["inp"]
-  return "fetch_table(%r, formulas=%r, private=%r, query codes %s) on rows %s (x=%s) -> rows %s cols %s%s" % (
-    inp["tab"], inp["f"], inp["p"], json.dumps({e["c"]: e["v"] for e in inp["q"]}), json.dumps(inp["t"]),
-    inp["x"], case["out"]["rows"], [c["id"] for c in case["out"]["cols"]],
-    " raised " + case["exc"] if case["exc"] else "")
+  query = "{" + ", ".join("%r: [%s]" % (e["c"], ", ".join(_val(c) for c in e["v"])) for e in inp["q"]) + "}"
+  if not inp["q"] and not inp["e"]:
+    query = "None"
+  rows = "[" + ", ".join("(%s, %s)" % (_val(r[0]), _val(r[1])) for r in inp["t"]) + "]"
+  return "fetch_table(%r, formulas=%r, private=%r, query=%s) on T with (A, B) rows %s%s, extra columns %s -> rows %s " \
+         "columns %s%s" % (inp["tab"], inp["f"], inp["p"], query, rows,
+                          " ids %s" % inp["ids"] if inp["ids"] else "", inp["x"], case["out"]["rows"],
+                          [c["id"] for c in case["out"]["cols"]], " raised " + case["exc"] if case["exc"] else "")
 
 
 def violations_of(failures):
@@ -147,7 +174,17 @@ def _stats(files):
 def run(ctx):
   cfg = "%s_%s.cfg" % (MC, ctx.tier)
   data, model = fnspec.enumerate_inputs(MC, cfg, ctx.workdir)
-  inputs, universe = data["inputs"], data["U"]
+  universe = data["U"]
+  _UNIVERSE[:] = universe
+  # the families of the design model overlap: keep one copy of every input (no input is added or judged here)
+  inputs, seen = [], set()
+  for i in data["inputs"]:
+    k = json.dumps(i, sort_keys=True)
+    if k not in seen:
+      seen.add(k)
+      inputs.append(i)
+  if len(inputs) != model["distinct"]:
+    raise fnspec.tlc.MachineryError("TLC found %d distinct inputs but wrote %d" % (model["distinct"], len(inputs)))
   if len(universe) != N_CODES:
     raise fnspec.tlc.MachineryError("FetchQuery!Universe has %d values, expected %d" % (len(universe), N_CODES))
   upath = os.path.join(ctx.workdir, "universe.json")
